@@ -35,6 +35,7 @@ import (
 	"github.com/oasisprotocol/oasis-core/go/common/identity"
 	"github.com/oasisprotocol/oasis-core/go/common/node"
 	"github.com/oasisprotocol/oasis-core/go/common/quantity"
+	"github.com/oasisprotocol/oasis-core/go/common/version"
 	"github.com/oasisprotocol/oasis-core/go/consensus/api/transaction"
 	"github.com/oasisprotocol/oasis-core/go/consensus/cometbft/abci"
 	cmtapi "github.com/oasisprotocol/oasis-core/go/consensus/cometbft/api"
@@ -49,7 +50,6 @@ import (
 	vaultApp "github.com/oasisprotocol/oasis-core/go/consensus/cometbft/apps/vault"
 	tmbeacon "github.com/oasisprotocol/oasis-core/go/consensus/cometbft/beacon"
 	tmcrypto "github.com/oasisprotocol/oasis-core/go/consensus/cometbft/crypto"
-	"github.com/oasisprotocol/oasis-core/go/common/version"
 	consensusGenesis "github.com/oasisprotocol/oasis-core/go/consensus/genesis"
 	genesis "github.com/oasisprotocol/oasis-core/go/genesis/api"
 	governance "github.com/oasisprotocol/oasis-core/go/governance/api"
@@ -99,18 +99,19 @@ type cnUser struct {
 }
 
 type cnNet struct {
-	cfg        cnCfg
-	doc        *genesis.Document
-	docJSON    []byte
-	chainCtx   string
-	vals       []*cnValidator
-	users      []*cnUser
-	scratch    string
-	names      map[string]string                         // address / key -> short name
-	pendingRot map[*cnTxSpec]map[string]signature.Signer // key rotations proposed by not yet executed registrations
-	rhPrev     map[string]hash.Hash                      // runtime -> encoded hash of its latest block (for commitments)
-	vrfAlpha   []byte                                    // VRF backend: the alpha proofs are currently collected for
-	vaultAddr  map[string]staking.Address                // vault name (V0, V1, ...) -> address, in order of appearance in the state
+	cfg          cnCfg
+	doc          *genesis.Document
+	docJSON      []byte
+	chainCtx     string
+	vals         []*cnValidator
+	users        []*cnUser
+	scratch      string
+	names        map[string]string                         // address / key -> short name
+	pendingRot   map[*cnTxSpec]map[string]signature.Signer // key rotations proposed by not yet executed registrations
+	rhPrev       map[string]hash.Hash                      // runtime -> encoded hash of its latest block (for commitments)
+	vrfAlpha     []byte                                    // VRF backend: the alpha proofs are currently collected for
+	vrfPrevAlpha []byte                                    // the alpha of the epoch before
+	vaultAddr    map[string]staking.Address                // vault name (V0, V1, ...) -> address, in order of appearance in the state
 }
 
 func q(n uint64) quantity.Quantity { return *quantity.NewFromUint64(n) }
@@ -209,6 +210,7 @@ func newNet(cfg cnCfg, scratch string) (*cnNet, error) {
 		n.names[v.entAddr.String()] = fmt.Sprintf("E%d", n.entIndex(i))
 		n.names[ident.NodeSigner.Public().String()] = v.name
 		n.names[staking.NewAddress(ident.NodeSigner.Public()).String()] = v.name
+		n.names[staking.NewAddress(ident.ConsensusSigner.Public()).String()] = v.name + ".c"
 	}
 	for i := 0; i < cfg.Validators; i++ {
 		n.names[n.vals[i].entAddr.String()] = fmt.Sprintf("E%d", i)
